@@ -27,6 +27,13 @@ TRUSTED = [
     "the offered task list (Workload.get_schedulable_tasks) is an input of the policy here: it is taken from the real call "
     "(frontier correctness is C18's)",
 ]
+EXPLANATION = (
+    "Theorems in Props/C13.v are about Model/Greedy.v, whose sort keys / admission tests / copy mode are regenerated from the "
+    "three scheduler sources (Gen/Src_Greedy.v) and proved equal to the documented ones; S-greedy compares the real schedule() "
+    "with that model on generated states inside Coq (decisions and final virtual availability); M-c13 applies the monitor with "
+    "the documented keys to the implementation's own decisions on single-worker pools. If the translator, a proof or the model "
+    "build breaks, the Coq streams are skipped (never evaluated against a stale build) and pure-Python forms of the monitor and "
+    "of the documented policy search the same cases for a concrete failing input.")
 POL = ["EDF", "FIFO", "LSF"]
 HEADER = "From Verif Require Import Gen.Src_Greedy Model.Greedy."
 
